@@ -318,7 +318,8 @@ fn synthetic_minimizer_shape_of(rng: &mut Rng, force: Option<usize>) -> ScannerC
             let nwords = rng.range(1, 2);
             for j in 0..nwords {
                 let unit = ["an", "ab", "a", "=", "xy", "é"][rng.below(6)];
-                let reps = rng.range(2, 4);
+                // a few periods, now and then very many (one refinement round per period)
+                let reps = if rng.chance(1, 10) { *rng.pick(&[33usize, 40, 65, 70, 130]) } else { rng.range(2, 4) };
                 let mut w = String::new();
                 if rng.chance(1, 2) {
                     w.push('b');
